@@ -741,7 +741,10 @@ class C04(Prop):
                    "primitive site (all primitives x value pool, Gen/Measured.lean) is caught, up to Python's subclass closure, by the "
                    "except clauses READ FROM THE SOURCE around that site (Gen/Handlers.lean) — decided by `decide +kernel` on every run; "
                    "lark's exception DAG vs. CELParser.parse likewise; differential correspondence of the skeleton per site; "
-                   "ill-typed / malformed / size-limit / random-text fuzz of both runners with str() and repr() of every error"),
+                   "ill-typed / malformed / size-limit / random-text fuzz of both runners with str() and repr() of every error; "
+                   "sessions (session_only_cel_errors: every history of compile/evaluate calls through one Environment) with random "
+                   "multi-step sequences on shared Environments; handler_bodies_pure: the operations inside every except body, read from "
+                   "the source, are on a list of operations that cannot raise"),
         text=("proof: whatever escapes the interpreter model is CELEvalError, for every expression tree, activation and every primitive "
               "behaviour consistent with the measured table; handlers, class hierarchy, raised-classes table, Transpiler.evaluate's "
               "blanket handler and the parser's except clauses are regenerated from the working tree on every run"),
@@ -757,12 +760,17 @@ class C04(Prop):
                "the interpreter skeleton (which primitive is applied under which try statement) is hand-written; tied to the source by the "
                "per-site handler extraction (AST) and the depth-1 correspondence of every construct",
                "CPython exception semantics (isinstance matching of except clauses), lark's LALR parser and lexer",
-               "Transpiler construction (Environment.program) and error rendering (str/repr, tree_dump) are checked by correspondence only"]
+               "Transpiler construction (Environment.program) and error rendering (str/repr, tree_dump) are checked by correspondence only",
+               "pureOps (Bridge/Total.lean): the operations allowed inside except bodies cannot raise (constructors of the library's errors, "
+               "logging, type/isinstance/str(ex), f-string conversion of CEL values, ex.args[0] guarded by the args0 checks, lark's get_context)",
+               "the session model's step function (compile keeps the text, evaluate = runI) is hand-written; tied by the sequence stream"]
     rule = ("every construct (unary, binary, ternary, index, select, call, method, macro, min, list/map/object literal, identifier, literal "
             "token) applied to value-pool operands of every kind [depth-1: CEL text run on both runners, interpreter outcome compared with "
             "the Lean skeleton fed with the outcome of the primitive applied directly]; random nested ill-typed expressions incl. malformed "
             "macro shapes, host functions raising, package/dotted bindings; expressions at CEL's minimum size limits; random token/byte "
-            "strings for compile. non-trivial = distinct input whose outcome is not a plain value (an error handler, the parser's "
+            "strings for compile (incl. texts without any token); every %-format string x every value, sequence repetition x every integer; "
+            "sequences of 2-4 texts (multi-line, failing on later lines, unparsable, empty) compiled and evaluated out of order through 1-2 "
+            "shared Environments with two binding sets. non-trivial = distinct input whose outcome is not a plain value (an error handler, the parser's "
             "error path or a conversion was reached)")
 
     # ---- generation -----------------------------------------------------------------------------------
